@@ -18,7 +18,8 @@ from harness import common, lib, tlc
 common.setup_repo_path()
 
 LAWS = ['ExactlyOneSlice', 'SubSeqLaw', 'SizesAddUp', 'UnslicedAlways']
-ALL = {'a', 'b', 'ab', 'a_in1', 'b_in34', 'aorb', 'bodd', 'a_rep'}
+ALL = {'a', 'b', 'ab', 'a_in1', 'b_in34', 'aorb', 'bodd', 'a_rep', 'c_inUS'}
+CODES = {'US': 91, 'UK': 92}
 
 
 def _aorb(x, y):
@@ -60,6 +61,9 @@ def build(h, arrays):
     elif sl == 'b_in34':
       p = p.add_slice(dict(b=(3, 4)))
       names[sl] = ('b',)
+    elif sl == 'c_inUS':
+      p = p.add_slice(dict(c='US'))          # one bare (multi-character) string as the allowed value
+      names[sl] = ('c',)
     elif sl == 'aorb':
       p = p.add_slice(('a', 'b'), slice_name='aorb', slice_fn=_aorb)
       names[sl] = ('aorb',)
@@ -90,7 +94,8 @@ def replay(chk, h):
     for bt in h['stream']:
       a = [r['a'] for r in bt]
       b = [r['b'] for r in bt]
-      batches.append({'a': np.array(a), 'b': np.array(b)} if arrays else {'a': a, 'b': b})
+      c = ['US' if v == 1 else 'UK' for v in a]
+      batches.append({'a': np.array(a), 'b': np.array(b), 'c': np.array(c)} if arrays else {'a': a, 'b': b, 'c': c})
     ctx = dict(kind='slicing', history=dict(stream=h['stream'], slicers=sorted(h['slicers']), agg2=h['agg2'], dis1=h['dis1']), arrays=arrays)
     cfg = f"slicers={sorted(h['slicers'])} agg2={h['agg2']} dis1={h['dis1']} batches={[[(r['a'], r['b']) for r in bt] for bt in h['stream']]} {'numpy' if arrays else 'lists'}"
     kinds = '+'.join(sorted(h['slicers'])) or 'none'
@@ -107,7 +112,8 @@ def replay(chk, h):
     res = dict(res) if res is not None else {}
     for k, v in res.items():
       if isinstance(k, transform.MetricKey):
-        key = (k.metrics if isinstance(k.metrics, str) else k.metrics, tuple(k.slice.features), tuple(int(_item(x)) for x in k.slice.values))
+        key = (k.metrics if isinstance(k.metrics, str) else k.metrics, tuple(k.slice.features),
+               tuple(CODES.get(str(_item(x)), None) or (str(_item(x)) if isinstance(_item(x), str) else int(_item(x))) for x in k.slice.values))
       else:
         key = (k, (), ())
       got[key] = _norm_rows(v)
